@@ -84,3 +84,32 @@ func VerifC01_Routing() {
 	vpAssert(hkey%count < count, "partition-id-in-range")
 	vpReach("end")
 }
+
+// VerifC04_MirrorTables: ReplicaCount 2 on fragments whose storage table is so small (symbolic size) that versions of
+// the key and a filler key spread over several tables on the primary and on the backup: after every acknowledged
+// Put (plain, two value sizes), Delete and filler Put, through either member, the backup copy of both keys equals
+// the primary copy and is absent exactly when the primary copy is absent.
+func VerifC04_MirrorTables() {
+	steps := vpBound("steps")
+	size := vpU64("tableSize")
+	vpAssume(size >= 34 && size <= 110)
+	cl := vpTwoMembers(2, size)
+	ctx := context.Background()
+	for i := 0; i < steps; i++ {
+		dm := vpDMap(cl.members[vpChoose("entry", 2)], "d")
+		switch vpChoose("op", 3) {
+		case 0:
+			v := vpBytes("val", 1+vpChoose("vlen", 2)*2)
+			vpAssert(dm.Put(ctx, "k", v, nil) == nil, "put-succeeds")
+		case 1:
+			_, err := dm.Delete(ctx, "k")
+			vpAssert(err == nil, "delete-succeeds")
+		case 2:
+			vpAssert(dm.Put(ctx, "f", vpBytes("fill", 2), nil) == nil, "filler-put-succeeds")
+		}
+		vpSleepMs(1)
+		vpCheckMirror(cl, "d", "k")
+		vpCheckMirror(cl, "d", "f")
+	}
+	vpReach("end")
+}
